@@ -212,6 +212,16 @@ func aliasMessage(r *RNG, big bool, salt byte) []byte {
 		}
 		body = append(body, l...)
 	}
+	// deep nesting: a value wrapped in many grouped layers (each layer costs 8 octets)
+	if r.Chance(20) {
+		inner := leaf(3)
+		for d, k := 0, []int{5, 12, 16, 17, 18, 24, 33, 40}[r.Intn(8)]; d < k; d++ {
+			inner = rawAVP(99904, 0x40, 0, 8+len(inner), inner, true)
+		}
+		if big || len(body)+len(inner) <= 1000 {
+			body = append(body, inner...)
+		}
+	}
 	if big {
 		for len(body) <= 1024 {
 			body = append(body, leaf(0)...)
